@@ -147,7 +147,12 @@ def run(pid: str, tier: str, seed: int, selftest=False, replay=None) -> int:
             text, argdom, info = gen_loop(rng)
         sources.append((f"gen:{seed}:{k}", text, argdom, info))
     cases = []
-    for name, text, argdom, info in sources:
+    prev_text = None
+    for si, (name, text, argdom, info) in enumerate(sources):
+        own = text
+        if name.startswith("gen:") and si % 3 == 0:
+            text = repo.add_companion(text, prev_text)       # one pass run over two loops in two functions; @f is judged
+        prev_text = own
         try:
             src = repo.parse(text)
             src.verify()
